@@ -30,24 +30,6 @@ Proof.
   destruct t; cbn; try discriminate. intros _. exact W.
 Qed.
 
-(* ------------------------------------------------------------------ the corner excluded from refinement *)
-Definition scorner (o : op) (sp : spool) : bool :=
-  match o with
-  | OPushT d _ => match sget sp d with Some (FWtf8, _) => true | _ => false end
-  | _ => false
-  end.
-
-Lemma scorner_abs o s p : scorner o (abs s p) = wtf8_corner o p.
-Proof.
-  destruct o; try reflexivity. cbn. rewrite sget_abs. destruct (get p d) as [[[] t]|]; reflexivity.
-Qed.
-
-Fixpoint no_corner (ops : list op) (sp : spool) : bool :=
-  match ops with
-  | [] => true
-  | o :: r => negb (scorner o sp) && no_corner r (snd (spec_op o sp))
-  end.
-
 (* model outputs against specification outputs; a Panic (u32 overflow) ends the
    model history early *)
 Fixpoint match_outs (outs : list step_out) (sp : list (outcome * spool)) : Prop :=
@@ -103,18 +85,17 @@ Proof.
 Qed.
 
 (* refinement of the independent-strings specification *)
-Theorem run_refines : forall ops s p, PInv s p -> no_corner ops (abs s p) = true ->
+Theorem run_refines : forall ops s p, PInv s p ->
   match_outs (fst (run ops s p)) (spec_run ops (abs s p)).
 Proof.
-  induction ops as [|o r IH]; intros s p HP NC.
+  induction ops as [|o r IH]; intros s p HP.
   - cbn. exact I.
-  - cbn [run spec_run]. cbn [no_corner] in NC. apply andb_true_iff in NC. destruct NC as [NC1 NC2].
-    apply negb_true_iff in NC1. rewrite scorner_abs in NC1.
+  - cbn [run spec_run].
     pose proof (exec_cases o p s HP) as H.
     destruct (exec_op o p s) as [[[[out p'] s'] ev]| e | k | k]; try contradiction.
-    + destruct H as [HP' [T [L [N Hs]]]]. cbn [fst snd] in *. specialize (Hs NC1).
-      rewrite Hs in *. cbn [snd] in NC2.
-      specialize (IH s' p' HP' NC2). destruct (run r s' p') as [outs fin]. cbn [fst] in *.
+    + destruct H as [HP' [T [L [N Hs]]]]. cbn [fst snd] in *.
+      rewrite Hs in *.
+      specialize (IH s' p' HP'). destruct (run r s' p') as [outs fin]. cbn [fst] in *.
       split; [reflexivity|]. split; [apply snap_abs_snapshot|]. split; [apply snapshot_ok, HP'|exact IH].
     + destruct (spec_op o (abs s p)). cbn. exact I.
 Qed.
@@ -178,11 +159,11 @@ Proof.
   - split; [exact U|]. exact F.
 Qed.
 
-Theorem history_refines npool ops : no_corner ops (abs st0 (pool0 npool)) = true ->
+Theorem history_refines npool ops :
   match_outs (fst (run_history npool ops)) (spec_run ops (abs st0 (pool0 npool))).
 Proof.
-  intros NC. unfold run_history.
-  pose proof (run_refines ops st0 (pool0 npool) (PInv_init npool) NC) as R.
+  unfold run_history.
+  pose proof (run_refines ops st0 (pool0 npool) (PInv_init npool)) as R.
   destruct (run ops st0 (pool0 npool)) as [outs [[s p]|]]; cbn [fst] in *; auto.
   destruct (drop_all p s) as [[[u s'] ev]| | |]; cbn [fst]; exact R.
 Qed.
